@@ -35,6 +35,7 @@ DATA = {
     "d2": [[2.5, 1.0], [2.5, 1.0], [2.5, 1.0], [-3.0, 0.0]],
     "e3": [[0.0, 1.0, 2.5], [1.0, 1.0, -3.0], [10.0, 0.0, 0.5], [9.0, 2.5, 0.0], [9.5, 2.0, 0.25]],
     "f2": [[0.1, 1 / 3], [0.7, 0.2], [3.3, 2.2], [3.1, 2.9], [0.2, 0.25]],
+    "h1": [[0.0], [2.0], [1.0 + 2.0**-21], [1.0 - 2.0**-21], [0.5], [1.5]],  # two samples that are *almost* equidistant from the first two points
     "g2": [[0.0, 0.0], [1.0, 0.0], [0.0, 1.0], [1.0, 1.0], [10.0, 10.0], [11.0, 10.0], [10.0, 12.0], [20.0, 0.0], [21.0, 1.0], [19.0, -1.0], [22.0, 0.0]],
 }
 OFFSETS = [0.0, 1000.1, 2.0**20, 1e6 + 0.1, 1e8 + 0.7]
@@ -63,7 +64,7 @@ def _centroid_sets(X, K):
 
 def cases(tier, seed):
     out = []
-    names = ["a1", "b1", "c2", "d2", "e3", "g2"] if tier == "quick" else list(DATA)
+    names = ["a1", "b1", "c2", "d2", "e3", "g2", "h1"] if tier == "quick" else list(DATA)
     offs = OFFSETS if tier == "thorough" else [0.0, 1000.1, 2.0**20, 1e8 + 0.7]
     for name in names:
         for off in offs:
